@@ -38,7 +38,7 @@ def _rmap(rng, hi):
     n = m if rng.random() < 0.3 else _rdim(rng, hi)
     if rng.random() < (0.004 if hi <= 8 else 0.02):
         # a realistically large map: header fields above 255 / 32767 / 65535, multi-line text records
-        m, n = rng.choice([(130, 140), (260, 70), (200, 200), (37, 300), (1, 70000 // 4)])
+        m, n = rng.choice([(130, 140), (260, 70), (200, 200), (37, 300), (1, 70000 // 4), (1100, 1000), (600, 2048)])
     return {"shape": [m, n], "seed": rng.getrandbits(32),
             "vals": rng.choice(["mixed", "mixed", "pos", "neg", "const", "zero", "tiny", "huge", "pos_big", "neg_big"]),
             "nan": rng.choice(["none", "none", "scatter", "rows", "all", "edge"]),
@@ -95,6 +95,14 @@ def generate(rng, tier):
             ops.append(op)
             if p not in written:
                 written.append(p)
+            if op["map"]["shape"][0] * op["map"]["shape"][1] > 120000:
+                op.pop("fault", None)
+                ops.append({"op": "read", "path": p, "via": rng.choice(["io", "ifg"])})     # a huge map is read back at once
+        elif c < 0.5 and len(paths) > 0 and rng.random() < 0.5:
+            # load an Interferogram from one file, change its calibration, save it somewhere, read that
+            ops.append({"op": "resave", "src": rng.choice(written), "path": rng.choice(paths) + ".re",
+                        "prep": [rng.choice([["latcal", round(10 ** rng.uniform(-2, 1), 4)], ["strip_latcal"], ["none"]])]})
+            ops.append({"op": "read", "path": ops[-1]["path"], "via": rng.choice(["io", "ifg"])})
         elif c < 0.8:
             op = {"op": "read", "path": rng.choice(written), "via": rng.choice(["io", "io", "ifg"])}
             if cfg["faults"] and rng.random() < 0.06:
@@ -337,6 +345,12 @@ def _codev_ssz(raw):
 def _sample_spans(w, entry):
     """Byte span of every stored sample of the complete file of a model entry."""
     raw = entry["full"]
+    if entry.get("huge"):
+        # only the first and the last sample matter for a map that is never cut
+        n = int(entry["map"].size)
+        if entry["fmt"] == "codev":
+            return [(len(raw) - 2, len(raw) - 1)]
+        return [(len(raw) - 4 * n, len(raw) - 4 * n + 4), (len(raw) - 4, len(raw))]
     if entry["fmt"] == "codev":
         return _codev_tokens(raw)
     # the phase block is the last 4*m*n bytes of the complete file (a writer may put an
@@ -608,6 +622,41 @@ def execute(plan):
             config.precision = op["bits"]
             w.disk.fired["precision_flip"] = w.disk.fired.get("precision_flip", 0) + 1
             ev["bits"] = op["bits"]
+        elif k == "resave":
+            from prysm.interferogram import Interferogram
+            src = model.get(op["src"])
+            ok_src = (src is not None and not src.get("unjudgeable") and src["fmt"] != "codev" and not src.get("huge")
+                      and w.disk.files.get(op["src"]) == src["full"])
+            if not ok_src:
+                ev["out"] = "skip:no-complete-zygo-source"
+                events.append(ev)
+                continue
+            try:
+                obj = Interferogram.from_zygo_dat(op["src"])
+                dx_new = float(obj.dx)
+                for step in op["prep"]:
+                    if step[0] == "latcal":
+                        obj.latcal(step[1])
+                        dx_new = float(step[1])
+                    elif step[0] == "strip_latcal":
+                        obj.strip_latcal()
+                        dx_new = 1.0
+                loaded = np.array(obj.data, dtype=np.float64)
+                wl = float(obj.wavelength)
+                obj.save_zygo_dat(op["path"])
+                now = w.disk.files.get(op["path"])
+                # what must come back is what the object held when it was saved (the map as loaded,
+                # i.e. already quantised once), with the object's current spacing and wavelength
+                e2 = {"fmt": "ifg", "path": op["path"], "huge": False, "map": loaded, "dx": dx_new, "wvl": wl,
+                      "full": now, "f32": obj.data.dtype == np.float32}
+                e2["layout"] = _layout(w, "ifg", loaded.shape, dx_new, wl)
+                model[op["path"]] = e2
+                ev["out"] = "ok"
+                ev["len"] = len(now)
+                bump(probes, "loaded_object_saved_again")
+            except Exception as e:
+                ev["out"] = "raised:" + type(e).__name__
+                model.pop(op["path"], None)
         elif k == "write":
             fmt, path = op["fmt"], op["path"]
             if "reuse" in op and op["reuse"] in objs:
@@ -647,10 +696,14 @@ def execute(plan):
                 w.disk.files.pop(path, None)
                 events.append(ev)
                 continue
-            entry = {"fmt": fmt, "path": path, "map": np.array(zfix, dtype=np.float64),
+            huge = zfix.size > 120000
+            if huge:
+                fault = None                      # the round trip itself is the point for such a map
+                bump(probes, "huge_map_over_1e5_samples")
+            entry = {"fmt": fmt, "path": path, "huge": huge, "map": np.array(zfix, dtype=np.float64),
                      "dx": dx_eff, "wvl": wvl_eff,
                      "full": full, "f32": zfix.dtype == np.float32}
-            entry["layout"] = _layout(w, fmt, z.shape, dx_eff, wvl_eff)
+            entry["layout"] = {"ok": False, "pos": []} if huge else _layout(w, fmt, z.shape, dx_eff, wvl_eff)
             spans = _sample_spans(w, entry)
             if fault:
                 at = _resolve(fault["where"], entry, spans)
@@ -735,6 +788,10 @@ def execute(plan):
             entry = model.get(path)
             if entry is None or entry.get("unjudgeable"):
                 ev["out"] = "skip:nothing-written" if entry is None else "skip:unjudgeable"
+                events.append(ev)
+                continue
+            if entry.get("huge") and k != "read":
+                ev["out"] = "skip:huge-map"
                 events.append(ev)
                 continue
             spans = _sample_spans(w, entry)
